@@ -203,6 +203,7 @@ type Sub struct {
 	start            time.Time
 	notes            []string
 	replayed         bool
+	discovered       map[string]string
 }
 
 type failRec struct {
@@ -321,6 +322,19 @@ func (s *Sub) Report(c any, fs []Finding) []Finding {
 	var un []Finding
 	s.mu.Lock()
 	defer s.mu.Unlock()
+	if os.Getenv("VERIF_DISCOVER") != "" {
+		// triage aid (never used by the registered commands): collect every signature and keep going
+		if s.discovered == nil {
+			s.discovered = map[string]string{}
+		}
+		for _, f := range fs {
+			k := f.Subject + "\t" + f.Kind
+			if _, ok := s.discovered[k]; !ok {
+				s.discovered[k] = f.Msg
+			}
+		}
+		return nil
+	}
 	for _, f := range fs {
 		if e := matchKnown(s.Prop, s.Name, f); e != nil {
 			s.knownHits[e.ID]++
@@ -387,7 +401,7 @@ func (s *Sub) flush() {
 		"known_examples": s.knownExample, "stepped_around": s.stepped,
 		"exhaustive": s.exhaustive, "failures": s.fails, "notes": s.notes,
 		"wall_s": time.Since(s.start).Seconds(), "test_failed": s.t.Failed(),
-		"replayed": s.replayed, "skipped": s.t.Skipped(),
+		"replayed": s.replayed, "skipped": s.t.Skipped(), "discovered": s.discovered,
 	}
 	b, _ := json.MarshalIndent(frag, "", " ")
 	os.WriteFile(filepath.Join(runDir(), "frag-"+base+".json"), b, 0o644)
